@@ -60,6 +60,13 @@ Theorem C08_invalid_region_rejected :
 Proof. exact tj_region_spec. Qed.
 Print Assumptions C08_invalid_region_rejected.
 
+(* generated fact: jpeg_crop_scanline does not re-run jinit_upsampler() over the merged upsampler object
+   (hazard 5 of the check: when this guard is missing a crop region of <= 2 columns under merged upsampling
+   corrupts pool memory) *)
+Theorem C08_crop_never_reinits_merged_upsampler : gen_crop_merged_guard = true.
+Proof. exact (eq_refl true). Qed.
+Print Assumptions C08_crop_never_reinits_merged_upsampler.
+
 (* an accepted TurboJPEG region comes back unchanged from jpeg_crop_scanline (no "Unexplained mismatch"),
    and TurboJPEG's scaled iMCU width is libjpeg's alignment *)
 Theorem C08_tj_region_matches_crop :
